@@ -403,6 +403,24 @@ Theorem crash_restart_is_bft_restart s nd : wf_cfg c -> refines s nd -> Qinv c s
     CrashBft.BM.e_fin (CrashBft.BM.n_eng (CrashBft.BM.restart nd)) = tr (finalized c s).
 Proof. exact (CrashBft.restart_sim c tr D sg cm s nd). Qed.
 
+(* RESTART ON A CRASH IMAGE.  After a crash at ANY cut k of a history (i = index of the interrupted import), NewRepository +
+   NewEngine with the F6 repair bring up a node that refines Bft.Model.restart of the Bft node that imported the first i
+   blocks (the cut precedes the block bulk) or the first i + 1 (the cut follows it: the repair re-runs the pending
+   CommitBlock).  Genesis stores satisfy the premise sim (genesis_is_bft_init). *)
+Theorem crash_restart_is_bft_node s0 nd0 hist k i :
+  wf_cfg2 c -> Inv2 c s0 -> wf_hist c s0 hist -> cut_in_import c s0 hist k i ->
+  sim s0 nd0 -> hist_ok s0 nd0 hist ->
+  let img := crash c s0 hist k in
+  exists best, restart c true img = Some (restart_store c true img, best, finalized c (restart_store c true img)) /\
+    (refines (restart_store c true img) (CrashBft.BM.restart (bft_import_all nd0 (map ablk (firstn i hist)))) \/
+     refines (restart_store c true img) (CrashBft.BM.restart (bft_import_all nd0 (map ablk (firstn (S i) hist))))).
+Proof. exact (CrashBft.crash_restart_sim c bc HcL tr D tr_num tr_lt sg cm master s0 nd0 hist k i). Qed.
+
+Theorem genesis_is_bft_init g : wf_cfg c -> c_g c = b_id g -> b_skeep g = [] -> b_ikeep g = [] ->
+  b_just g = false -> b_comm g = false -> D (b_id g) ->
+  sim (genesis_store g) (CrashBft.BM.init_node (ablk g) master).
+Proof. exact (CrashBft.genesis_sim c bc HcL tr D tr_num tr_lt sg cm master g). Qed.
+
 (* from a genesis store *)
 Section FromGenesis.
 Variable g : blk.
@@ -608,6 +626,8 @@ Print Assumptions search_definitions_agree.
 Print Assumptions find_checkpoint_is_find_cp.
 Print Assumptions crash_import_is_bft_import.
 Print Assumptions crash_restart_is_bft_restart.
+Print Assumptions crash_restart_is_bft_node.
+Print Assumptions genesis_is_bft_init.
 Print Assumptions abs_of_run_is_bft_run.
 Print Assumptions resumed_node_is_bft_run.
 Print Assumptions stored_quality_is_from_scratch_after_resume.
